@@ -133,9 +133,14 @@ def p_argument_3(t):
 def p_argument_4(t):
     '''argument : PERCENT SEGMENT COLON address'''
     t[0] = {
-        x86_afs.segm:x86_afs.reg_sg.index(t[2].lower()),
         x86_afs.ad:x86_afs.u32,
         }
+    segm = x86_afs.reg_sg.index(t[2].lower())
+    if segm != 3 or \
+            x86_afs.reg_dict[x86_afs.r_esp] in t[4] or x86_afs.reg_dict[x86_afs.r_ebp] in t[4]:
+        # Like the Intel parser, we don't mention the DS segment, which is
+        # implicit (unless esp/ebp is used: the implicit segment may be SS)
+        t[0][x86_afs.segm] = segm
     t[0].update(t[4])
 
 def p_symbol_0(t):
